@@ -1351,7 +1351,7 @@ def run(ctx):
     ctx.assumptions = ["binary64 rounding is not modelled (theorems exact over Q)", "number grammar restricted to canonical ints and d+.d+ decimals in the model"]
     forbidden_gate(ctx, ["Base", "C10"])
     ok, why = check_props(ctx, "C10/Props.v", ["C10/Harness.vo", "C10/Proofs.vo", "C10/ProofsMode.vo", "C10/ProofsMinMax.vo", "C10/ProofsFrac.vo", "C10/ProofsStep.vo"])
-    ncases = int(os.environ.get("C10_CASES", "0")) or (800 if ctx.tier == "quick" else 8000)
+    ncases = int(os.environ.get("C10_CASES", "0")) or (640 if ctx.tier == "quick" else 8000)
     terms, meta = [], []
     oracle_bad = []
     run_classes = set()
